@@ -192,6 +192,14 @@ def parScanWith (copyFirst : Bool) (assign : List Nat) (n : Nat) (w : Worker)
 
 def parScan := parScanWith true
 
+/-- unpickling a list of results one after the other: the i-th gets the i-th fresh cell -/
+def placeFrom (n : Nat) : List (Label × Pickled) → List (Label × Sim)
+  | [] => []
+  | lp :: rest => (lp.1, { cell := n, segs := lp.2.segs, nan := lp.2.nan }) :: placeFrom (n + 1) rest
+
+def placeAll (h : Heap) (ps : List (Label × Pickled)) : Heap × List (Label × Sim) :=
+  (h ++ ps.map (·.2.content), placeFrom h.length ps)
+
 /-! ### lazy views -/
 
 abbrev ArgRows := List (Rat × List (Name × Rat))
